@@ -1,5 +1,74 @@
-use serde_json::Value;
+use crate::ops::{b, cps, s};
+use rand::SeedableRng;
+use rand_chacha::ChaCha8Rng;
+use serde_json::{json, Value};
+use std::borrow::Cow;
+use std::cell::Cell;
+use std::collections::{HashMap, HashSet};
+use text_utils::corrupt::{edit_word, DeleteEdits, InsertEdits, ReplaceEdits, SwapEdits};
 
-pub fn dispatch(op: &str, _req: &Value) -> Result<Value, String> {
-    Err(format!("unknown op {op}"))
+fn st(v: &Value) -> String {
+    v.as_array().unwrap().iter().map(|c| char::from_u32(c.as_u64().unwrap() as u32).unwrap()).collect()
+}
+
+fn edits_of(e: &Value) -> (Vec<String>, Vec<f64>) {
+    (
+        e["edits"].as_array().unwrap().iter().map(st).collect(),
+        e["weights"].as_array().unwrap().iter().map(|w| w.as_f64().unwrap()).collect(),
+    )
+}
+
+pub fn dispatch(op: &str, req: &Value) -> Result<Value, String> {
+    match op {
+        "edit_word_chain" => {
+            let kinds: Vec<&str> = req["kinds"].as_array().ok_or("kinds")?.iter().map(|k| k.as_str().unwrap()).collect();
+            let mut insertions = HashMap::new();
+            for e in req["ins"].as_array().ok_or("ins")? {
+                insertions.insert((Cow::Owned(st(&e["prev"])), Cow::Owned(st(&e["cur"]))), edits_of(e));
+            }
+            let mut replacements = HashMap::new();
+            for e in req["rep"].as_array().ok_or("rep")? {
+                replacements.insert(
+                    (Cow::Owned(st(&e["prev"])), Cow::Owned(st(&e["cur"])), Cow::Owned(st(&e["next"]))),
+                    edits_of(e),
+                );
+            }
+            let insert = InsertEdits { insertions };
+            let replace = ReplaceEdits { replacements };
+            let preds: Vec<bool> = req["preds"].as_array().ok_or("preds")?.iter().map(|p| p.as_bool().unwrap()).collect();
+            let cnt = Cell::new(0usize);
+            let answer = || {
+                let k = cnt.get();
+                cnt.set(k + 1);
+                preds.get(k).copied().unwrap_or(false)
+            };
+            let delete = DeleteEdits { full_delete: b(req, "full_delete")?, can_delete: |_s: &str| answer() };
+            let swap = SwapEdits { can_swap: |_a: &str, _b: &str| answer() };
+            let seed: u64 = req["seed"].as_str().ok_or("seed")?.parse().map_err(|_| "seed")?;
+            let mut rng = ChaCha8Rng::seed_from_u64(seed);
+            let g = b(req, "g")?;
+            let mut word = s(req, "word")?;
+            let mut excl: HashSet<usize> = req["excl"].as_array().ok_or("excl")?.iter().map(|e| e.as_u64().unwrap() as usize).collect();
+            let mut out = vec![];
+            for _ in 0..req["chain"].as_u64().ok_or("chain")? {
+                let (nw, ne) = edit_word(
+                    &word,
+                    g,
+                    &mut rng,
+                    if kinds.contains(&"insert") { Some(&insert) } else { None },
+                    if kinds.contains(&"delete") { Some(&delete) } else { None },
+                    if kinds.contains(&"replace") { Some(&replace) } else { None },
+                    if kinds.contains(&"swap") { Some(&swap) } else { None },
+                    Some(excl.clone()),
+                );
+                let mut nev: Vec<usize> = ne.iter().copied().collect();
+                nev.sort();
+                out.push(json!([cps(&nw), nev]));
+                word = nw;
+                excl = ne;
+            }
+            Ok(json!(out))
+        }
+        _ => crate::ops9::dispatch(op, req),
+    }
 }
